@@ -100,18 +100,18 @@ def setChunkValid (e : Env) (st : St) (k : Nat) : Bool × St :=
         let st := zeroChunk e st c
         (false, { st with valid := st.valid.set k (-1) })
 
-/-- `dl_write`: -1 is an error -/
-def dlWrite (st : St) (at_ : Bytes) : Int × St :=
+/-- `dl_write`: `none` is the error return -1 -/
+def dlWrite (st : St) (at_ : Bytes) : Option Nat × St :=
   if st.writeInChunk > 0 then
     let wb := if st.writeInChunk < at_.length then st.writeInChunk else at_.length
     let d := at_.take wb
     let st := { st with file := Copy.writeAt st.file st.pos d, pos := st.pos + wb, writeInChunk := st.writeInChunk - wb }
     -- hash_update refuses a zero-length update with a non-NULL pointer, and an uninitialised hash
-    if wb = 0 then (-1, { st with err := true }) else
+    if wb = 0 then (none, { st with err := true }) else
     match st.hash with
-    | none => (-1, { st with err := true })
-    | some acc => (wb, { st with hash := some (acc ++ d), dlChunkData := st.dlChunkData + wb })
-  else (0, st)
+    | none => (none, { st with err := true })
+    | some acc => (some wb, { st with hash := some (acc ++ d), dlChunkData := st.dlChunkData + wb })
+  else (some 0, st)
 
 /-- the search for the chunk that starts at the current payload position -/
 def findNext (e : Env) (st : St) : List RChunk → Nat → Option (Nat × RChunk)
@@ -123,37 +123,47 @@ def findNext (e : Env) (st : St) : List RChunk → Nat → Option (Nat × RChunk
       | some tc => if rc.compLen = tc.compLen then some (j, rc) else findNext e st rest (j + 1)
       | none => findNext e st rest (j + 1)
 
+/-- `if(dl->tgt_check && !set_chunk_valid(dl)) return false;` -/
+def dlVerify (e : Env) (st : St) : Bool × St :=
+  match st.tgtCheck with
+  | some k => setChunkValid e st k
+  | none => (true, st)
+
+/-- the `for` loop over the range index: open the chunk that starts at the current payload position, if there is one -/
+def dlOpen (e : Env) (st : St) : St :=
+  let cur := if st.curNull ∨ st.cur ≥ e.ridx.length then 0 else st.cur
+  let st := { st with cur := cur, curNull := false }
+  match findNext e st (e.ridx.drop cur) cur with
+  | some (j, rc) =>
+    match e.hdr.chunks[rc.tgt]? with
+    | some tc =>
+      { st with tgtCheck := some rc.tgt, hash := some [], writeInChunk := rc.compLen,
+                pos := e.dataOff + tc.start, cur := j + 1, curNull := decide (j + 1 ≥ e.ridx.length) }
+    | none => st
+  | none => st
+
+/-- the part of `dl_write_range` that runs when no chunk is open (`write_in_chunk == 0`): verify the chunk that was just
+completed, then look for the chunk that starts at the current payload position and open it.  `false` = `return 0` -/
+def dlSelect (e : Env) (st : St) : Bool × St :=
+  let r := dlVerify e st
+  if ¬ r.1 then (false, r.2) else (true, dlOpen e r.2)
+
 /-- `dl_write_range`: the number of bytes taken (0 = error) -/
 def dlWriteRange (e : Env) : Nat → St → Bytes → Nat × St
   | 0, st, _ => (0, { st with ub := true })
   | fuel + 1, st, at_ =>
     if st.err then (0, st) else
     if e.ridx.isEmpty then (0, { st with err := true }) else          -- "zckDL index not initialized"
-    let (wb, st) := dlWrite st at_
-    if wb < 0 then (0, st) else
-    let wb := wb.toNat
-    let go (st : St) : Nat × St :=
-      if st.writeInChunk > 0 ∧ wb < at_.length then
-        let (wb2, st) := dlWriteRange e fuel st (at_.drop wb)
-        if wb2 = 0 then (0, st) else (wb + wb2, st)
-      else (wb, st)
-    if st.writeInChunk = 0 then
-      let r := match st.tgtCheck with
-        | some k => setChunkValid e st k
-        | none => (true, st)
+    match dlWrite st at_ with
+    | (none, st) => (0, st)
+    | (some wb, st) =>
+      let r := if st.writeInChunk = 0 then dlSelect e st else (true, st)
       if ¬ r.1 then (0, r.2) else
       let st := r.2
-      let cur := if st.curNull ∨ st.cur ≥ e.ridx.length then 0 else st.cur
-      let st := { st with cur := cur, curNull := false }
-      match findNext e st (e.ridx.drop cur) cur with
-      | some (j, rc) =>
-        match e.hdr.chunks[rc.tgt]? with
-        | some tc =>
-          go { st with tgtCheck := some rc.tgt, hash := some [], writeInChunk := rc.compLen,
-                       pos := e.dataOff + tc.start, cur := j + 1, curNull := decide (j + 1 ≥ e.ridx.length) }
-        | none => go st
-      | none => go st
-    else go st
+      if st.writeInChunk > 0 ∧ wb < at_.length then
+        let r2 := dlWriteRange e fuel st (at_.drop wb)
+        if r2.1 = 0 then (0, r2.2) else (wb + r2.1, r2.2)
+      else (wb, st)
 
 /-! ### multipart.c -/
 
@@ -168,14 +178,22 @@ def endPattern (b : Bytes) : Bytes := "\r\n--".toUTF8.toList ++ escapeRx b ++ "-
 /-- the C string at the head of a buffer -/
 def cstr (bs : Bytes) : Bytes := bs.takeWhile (· ≠ 0)
 
+/-- "Create regex to find boundary": `none` = `return 0` (the pattern is then allocated but not compiled) -/
+def hdrEnsureRx (e : Env) (st : St) : Option St :=
+  match st.hdrRx with
+  | .null => if e.rx.comp hdrPattern then some { st with hdrRx := .ok hdrPattern } else none
+  | _ => some st
+
+/-- the boundary text inside the C string `s`, group 1 at `[so, eo)`: optional quotes removed -/
+def boundaryOf (s : Bytes) (so eo : Nat) : Bytes :=
+  let len := eo - so
+  let quoted := s.getD so 0 = 0x22 ∧ len > 2 ∧ s.getD (so + len - 1) 0 = 0x22
+  if quoted then (s.drop (so + 1)).take (len - 2) else (s.drop so).take len
+
 /-- `multipart_get_boundary` (the header callback returns `size` whatever happens) -/
 def getBoundary (e : Env) (st : St) (b : Bytes) : St :=
   if st.err then st else
-  let st1 : Option St := match st.hdrRx with
-    | .null => if e.rx.comp hdrPattern then some { st with hdrRx := .ok hdrPattern }
-               else none
-    | _ => some st
-  match st1 with
+  match hdrEnsureRx e st with
   | none => { st with hdrRx := .broken, err := true }
   | some st =>
     if st.hdrRx = .broken then { st with ub := true } else
@@ -184,10 +202,7 @@ def getBoundary (e : Env) (st : St) (b : Bytes) : St :=
     | none => st
     | some (so, eo) =>
       if ¬ (so ≤ eo ∧ eo ≤ s.length) then { st with ub := true } else
-      let len := eo - so
-      let quoted := s.getD so 0 = 0x22 ∧ len > 2 ∧ s.getD (so + len - 1) 0 = 0x22
-      let bnd := if quoted then (s.drop (so + 1)).take (len - 2) else (s.drop so).take len
-      { st with mp := {}, boundary := some bnd }
+      { st with mp := {}, boundary := some (boundaryOf s so eo) }
 
 /-- `gen_regex`: false = failure (the context is then in error state) -/
 def genRegex (e : Env) (st : St) : Bool × St :=
@@ -210,6 +225,34 @@ def scanFrom : Bytes → Nat → Nat ⊕ Nat
 
 def scanHdr (buf : Bytes) (i : Nat) : Nat ⊕ Nat := scanFrom (buf.drop i) i
 
+/-- the part header `s` (a C string) has been found: run the patterns on it.  `(true, st)`: a part begins, `mp->length` and
+`mp->state` are set; `(false, st)`: `goto end` (closing delimiter, or an error has been set) -/
+def mpPartHeader (e : Env) (s : Bytes) (st : St) : Bool × St :=
+  match st.dlRx, st.endRx with
+  | .ok pp, endRx =>
+    match e.rx.part pp s with
+    | none =>
+      (match endRx with
+       | .ok ep => (false, if e.rx.endm ep s then st else { st with err := true })
+       | _ => (false, { st with ub := true }))
+    | some (so1, eo1, so2, eo2) =>
+      if ¬ (so1 ≤ eo1 ∧ eo1 ≤ s.length ∧ so2 ≤ eo2 ∧ eo2 ≤ s.length) then (false, { st with ub := true }) else
+      let rstart := parseNum s so1 eo1
+      let rend := parseNum s so2 eo2
+      (true, { st with mp := { st.mp with length := (rend + W64 - rstart + 1) % W64, state := 1 } })
+  | _, _ => (false, { st with ub := true })
+
+/-- the payload branch of the loop: hand `min(mp->length, bytes left)` bytes to `dl_write_range`.
+Result: bytes consumed, new `header_start`, whether `dl_write_range` took them all -/
+def mpPayload (e : Env) (buf : Bytes) (i hs : Nat) (st : St) : Nat × Nat × Bool × St :=
+  let size := buf.length - i
+  let (size, mp, hs) :=
+    if st.mp.length ≤ size then (st.mp.length, { st.mp with length := 0, state := 0 }, i + st.mp.length)
+    else (size, { st.mp with length := st.mp.length - size }, hs)
+  let st := { st with mp := mp }
+  let r := dlWriteRange e (2 * size + 2) st ((buf.drop i).take size)
+  (size, hs, r.1 = size, r.2)
+
 /-- the `while(i)` loop of `multipart_extract`; result `false` = `return 0` -/
 def mpLoop (e : Env) : Nat → Bytes → Nat → Nat → St → Bool × St
   | 0, _, _, _, st => (false, { st with ub := true })
@@ -217,49 +260,39 @@ def mpLoop (e : Env) : Nat → Bytes → Nat → Nat → St → Bool × St
     let l := buf.length
     if st.mp.state ≠ 0 then
       if i ≥ l then (true, st) else
-      let size := l - i
-      let (size, mp, hs) :=
-        if st.mp.length ≤ size then (st.mp.length, { st.mp with length := 0, state := 0 }, i + st.mp.length)
-        else (size, { st.mp with length := st.mp.length - size }, hs)
-      let st := { st with mp := mp }
-      let (r, st) := dlWriteRange e (2 * size + 2) st ((buf.drop i).take size)
-      if r ≠ size then (false, st) else
+      let (size, hs, ok, st) := mpPayload e buf i hs st
+      if ¬ ok then (false, st) else
       mpLoop e fuel buf (i + size) hs st
     else if i ≥ l then
-      let size := l - hs
-      (true, if size > 0 then { st with mp := { st.mp with buffer := some (buf.drop hs) } } else st)
+      (true, if l - hs > 0 then { st with mp := { st.mp with buffer := some (buf.drop hs) } } else st)
     else
       match scanHdr buf i with
       | .inl j => mpLoop e fuel buf (j + 4) hs st
       | .inr j =>
         let buf := buf.set (j + 3) 0
-        let s := cstr (buf.drop i)
-        match st.dlRx, st.endRx with
-        | .ok pp, endRx =>
-          match e.rx.part pp s with
-          | none =>
-            (match endRx with
-             | .ok ep => (true, if e.rx.endm ep s then st else { st with err := true })
-             | _ => (true, { st with ub := true }))
-          | some (so1, eo1, so2, eo2) =>
-            if ¬ (so1 ≤ eo1 ∧ eo1 ≤ s.length ∧ so2 ≤ eo2 ∧ eo2 ≤ s.length) then (true, { st with ub := true }) else
-            let rstart := parseNum s so1 eo1
-            let rend := parseNum s so2 eo2
-            let st := { st with mp := { st.mp with length := (rend + W64 - rstart + 1) % W64, state := 1 } }
-            mpLoop e fuel buf (j + 4) hs st
-        | _, _ => (true, { st with ub := true })
+        match mpPartHeader e (cstr (buf.drop i)) st with
+        | (false, st) => (true, st)
+        | (true, st) => mpLoop e fuel buf (j + 4) hs st
+
+/-- "Add new data to stored buffer" -/
+def mpJoin (st : St) (b : Bytes) : Bytes × St :=
+  match st.mp.buffer with
+  | some old => (old ++ b, { st with mp := { st.mp with buffer := none } })
+  | none => (b, st)
+
+/-- `if(dl->dl_regex == NULL && !gen_regex(dl))` -/
+def mpEnsureRx (e : Env) (st : St) : Bool × St :=
+  match st.dlRx with
+  | .null => genRegex e st
+  | _ => (true, st)
 
 /-- `multipart_extract`: false = `return 0` -/
 def mpExtract (e : Env) (st : St) (b : Bytes) : Bool × St :=
   if st.err then (false, st) else
-  let (buf, st) := match st.mp.buffer with
-    | some old => (old ++ b, { st with mp := { st.mp with buffer := none } })
-    | none => (b, st)
-  let r : Bool × St := match st.dlRx with
-    | .null => genRegex e st
-    | _ => (true, st)
+  let p := mpJoin st b
+  let r := mpEnsureRx e p.2
   if ¬ r.1 then (false, r.2) else
-  mpLoop e (2 * buf.length + 4) buf 0 0 r.2
+  mpLoop e (2 * p.1.length + 4) p.1 0 0 r.2
 
 /-! ### callbacks -/
 
